@@ -205,6 +205,41 @@ def run(tier, seed):
         ps = [p for p in ps if p.get("path") in (None, PATH)]
         items2.append((s, ps, name))
     n_front = judge(ck, items2, "front end")
+    # `garden check --json` reports the same diagnostics by line / column only: they must be the ones the front
+    # end holds (whose offsets PosOK has just judged), line numbers 1-based
+    import json as _json
+    from common import garden, pmap, scratch_dir
+    import shutil as _shutil
+    cj = [(name, s_, r) for (name, s_), r in zip(texts, res) if r.get("check") == "ok" and not r.get("parse_errors") and r.get("diags")]
+    rnd.shuffle(cj)
+    cj.sort(key=lambda t: 0 if any(d["pos"]["line"] != d["pos"]["end_line"] for d in t[2]["diags"]) else 1)     # multi-line diagnostics first
+    cj = cj[:40 if tier == "quick" else 400]
+
+    def cli(t):
+        d = scratch_dir("c23cj")
+        try:
+            path = os.path.join(d, "verif_c23.gdn")
+            with open(path, "wb") as f:
+                f.write(t[1].encode("utf-8"))
+            return garden(["check", "--json", path], timeout=30, cwd=d)
+        finally:
+            _shutil.rmtree(d, ignore_errors=True)
+    for (name, s_, r), (rc, out, err) in zip(cj, pmap(cli, cj)):
+        ck.evaluated()
+        ck.validated()
+        got = []
+        for line in out.split("\n"):
+            if line.strip().startswith("{"):
+                try:
+                    j = _json.loads(line)
+                    got.append((j["line_number"], j["end_line_number"], j["column"], j["end_column"]))
+                except (ValueError, KeyError):
+                    pass
+        want = sorted((d["pos"]["line"] + 1, d["pos"]["end_line"] + 1, d["pos"]["col"], d["pos"]["end_col"]) for d in r["diags"] if d["pos"].get("path") in (None, PATH))
+        if rc not in (0, 1) or sorted(got) != want:
+            key = f"C23 check --json {name} {refrun.src_hash(s_)}"
+            ck.fail(key, f"`garden check --json` reports ranges {sorted(got)[:4]} (exit {rc}); the checker's diagnostics are at {want[:4]} ({name})",
+                    {"what": "check --json", "src": s_, "cli": sorted(got), "front_end": want})
     # interpreter: runtime exception positions
     res = batch("run", [{"id": i, "src": s, "path": PATH, "tick_limit": 20000} for i, (_, s) in enumerate(texts)], timeout_per=3.0)
     items3 = []
@@ -273,5 +308,8 @@ def replay(rec):
         d = fe.compare_lexer(r["model"], res, fe.FULL)
         print(d)
         return 1 if d else 0
+    if r.get("what") == "check --json":
+        print(json.dumps({"cli": r["cli"], "front_end": r["front_end"]}))
+        return 1
     print(json.dumps(r["position"]))
     return 1
